@@ -516,3 +516,134 @@ Lemma dispose_all_aliased_order_refuted :
     let s := run _ _ (astep true) (ainit [1; 2], [ALoopStart; AReg 5]) sched in
     snd s = [ALoopDone; ARegDone 5] /\ a_disposed (fst s) = [2] /\ a_live (fst s) = [5].
 Proof. exists [0; 0; 1; 0; 0]. vm_compute. auto. Qed.
+
+(* ================================================================================================ *)
+(* K. mapping handler statistics: swap, upload, roll back on failure                                 *)
+(* ================================================================================================ *)
+Open Scope Z_scope.
+Lemma zsum_app2 a b : zsum (a ++ b) = zsum a + zsum b.
+Proof. unfold zsum. induction a as [|h t IH]; cbn; [lia|]. fold (zsum (t ++ b)) in *. fold (zsum t) in *. fold (zsum b) in *. rewrite IH. lia. Qed.
+
+Definition kth_ok (t : kpc) : Prop :=
+  match t with KUpload v _ => 0 < v | KSub _ => False | KAdd todo => Forall (fun d => 0 <= d) todo | _ => True end.
+Definition KInv (s : ksh * list kpc) : Prop :=
+  let sh := fst s in let ls := snd s in
+  Forall kth_ok ls /\ 0 <= k_cnt sh /\ 0 <= k_up sh /\
+  k_up sh + k_cnt sh + zsum (flat_map k_inflight ls) = k_added sh.
+
+Lemma inflight_nonneg ls : Forall kth_ok ls -> 0 <= zsum (flat_map k_inflight ls).
+Proof.
+  induction ls as [|t r IH]; intros H; cbn; [lia|]. inversion H as [|x xs Hx Hr]; subst. rewrite zsum_app2.
+  specialize (IH Hr). destruct t; cbn in *; lia.
+Qed.
+
+Lemma kinv_step s i : KInv s -> KInv (sys_step _ _ (kstep true) s i).
+Proof.
+  destruct s as [sh ls]. unfold KInv, sys_step. cbn [fst snd]. intros (Hok & Hc & Hu & Hsum).
+  destruct (nth_error ls i) as [x|] eqn:En; [|cbn [fst snd]; auto 10].
+  assert (Hx : kth_ok x) by (eapply Forall_nth; eauto).
+  destruct (fm_upd2 k_inflight ls i x En) as (a & b & Ha & Hupd).
+  rewrite Ha in Hsum. rewrite !zsum_app2 in Hsum.
+  destruct sh as [cn up ad]. cbn [k_cnt k_up k_added] in *.
+  destruct x as [f|v f|v| |todo]; cbn [kstep k_cnt k_up k_added]; cbn in Hx.
+  - (* KTake: Swap(0) *)
+    destruct (0 <? cn) eqn:E; cbn [fst snd k_cnt k_up k_added].
+    + apply Z.ltb_lt in E. split; [apply Forall_upd; [exact Hok|exact E]|].
+      rewrite Hupd, !zsum_app2. cbn [k_inflight zsum fold_right] in *. repeat split; lia.
+    + apply Z.ltb_ge in E. split; [apply Forall_upd; [exact Hok|exact I]|].
+      rewrite Hupd, !zsum_app2. cbn [k_inflight zsum fold_right] in *. repeat split; lia.
+  - (* KUpload *)
+    destruct f; cbn [fst snd k_cnt k_up k_added]; (split; [apply Forall_upd; [exact Hok|exact I]|]);
+      rewrite Hupd, !zsum_app2; cbn [k_inflight zsum fold_right] in *; repeat split; lia.
+  - destruct Hx.
+  - cbn [fst snd]. rewrite (upd_nth_same ls i _ En). rewrite Ha, !zsum_app2. auto 10.
+  - destruct todo as [|d r]; cbn [fst snd k_cnt k_up k_added].
+    + rewrite (upd_nth_same ls i _ En). rewrite Ha, !zsum_app2. auto 10.
+    + inversion Hx as [|d' r' Hd Hr]; subst. split; [apply Forall_upd; [exact Hok|exact Hr]|].
+      rewrite Hupd, !zsum_app2. cbn [k_inflight zsum fold_right] in *. repeat split; lia.
+Qed.
+
+(* ANY number of reporters (periodic ticks, the final report of the clean-up handler; each upload may fail) and of tunnels
+   adding their totals, ANY schedule: what has been uploaded never exceeds what was counted (no byte is reported twice), and
+   once every thread has finished, uploaded + still-local = counted (no byte is lost), the local counter is never negative *)
+Theorem stats_conserved_all_schedules ts sched :
+  forallb k_initial ts = true ->
+  let s := run _ _ (kstep true) (kinit, ts) sched in
+  k_up (fst s) <= k_added (fst s) /\ 0 <= k_cnt (fst s) /\
+  (forallb k_finished (snd s) = true -> k_up (fst s) + k_cnt (fst s) = k_added (fst s)).
+Proof.
+  intros Hi s.
+  assert (HI : KInv s).
+  { unfold s. apply inv_all_schedules; [intros s0 i; apply kinv_step|].
+    rewrite forallb_forall in Hi. unfold KInv. cbn [fst snd kinit k_cnt k_up k_added].
+    assert (E : flat_map k_inflight ts = []).
+    { induction ts as [|t r IH]; cbn; [reflexivity|].
+      assert (Ht : k_initial t = true) by (apply Hi; left; reflexivity).
+      destruct t; cbn in Ht; try discriminate; cbn; apply IH; intros y Hy; apply Hi; right; exact Hy. }
+    rewrite E. cbn. split; [|lia].
+    rewrite Forall_forall. intros t Ht. apply Hi in Ht. destruct t; cbn in Ht; try discriminate; try exact I.
+    cbn. rewrite Forall_forall. rewrite forallb_forall in Ht. intros d Hd. apply Ht in Hd. apply Z.leb_le in Hd. exact Hd. }
+  destruct s as [sh ls]. destruct HI as (Hok & Hc & Hu & Hsum). cbn [fst snd] in *.
+  pose proof (inflight_nonneg ls Hok) as Hpos.
+  split; [lia|]. split; [exact Hc|]. intros Hf.
+  assert (E : flat_map k_inflight ls = []).
+  { rewrite forallb_forall in Hf. clear - Hf. induction ls as [|t r IH]; cbn; [reflexivity|].
+    assert (Ht : k_finished t = true) by (apply Hf; left; reflexivity).
+    destruct t; cbn in Ht; try discriminate; cbn; apply IH; intros y Hy; apply Hf; right; exact Hy. }
+  rewrite E in Hsum. cbn in Hsum. lia.
+Qed.
+
+(* load, upload, subtract on success: the periodic report and the final report both load the same 1000 bytes *)
+Lemma stats_load_subtract_refuted :
+  exists sched,
+    let s := run _ _ (kstep false) (kinit, [KAdd [1000]; KTake false; KTake false]) sched in
+    forallb k_finished (snd s) = true /\ k_added (fst s) = 1000 /\ k_up (fst s) = 2000 /\ k_cnt (fst s) = -1000.
+Proof. exists [0; 1; 2; 1; 2; 1; 2]%nat. vm_compute. auto. Qed.
+Close Scope Z_scope.
+
+(* ================================================================================================ *)
+(* L. the clean-up handler's final report is guarded by a timer                                      *)
+(* ================================================================================================ *)
+Definition l_closer (t : lpc) : Prop := t = LSpawn \/ t = LWait \/ t = LRest \/ t = LDone.
+Definition LInvG (s : lsh * list lpc) : Prop :=
+  exists a b c d, snd s = [a; b; c; d] /\ l_closer a /\ (b = LReport \/ b = LReported) /\
+    ((c = LTimer) \/ (c = LTimerFired /\ l_timer (fst s) = true)) /\ (d = LBackend \/ d = LBackendUp).
+
+Lemma linvg_step s i : LInvG s -> LInvG (sys_step _ _ (lstep true) s i).
+Proof.
+  destruct s as [sh ls]. intros (a & b & c & d & Hls & Ha & Hb & Hc & Hd). cbn [fst snd] in *. subst ls.
+  destruct sh as [bk rp tm]. unfold LInvG, l_closer in *. cbn [l_timer] in *.
+  destruct i as [|[|[|[|i]]]]; unfold sys_step; cbn [fst snd nth_error upd_nth].
+  - destruct Ha as [-> | [-> | [-> | ->]]]; cbn [lstep l_reported l_timer andb orb];
+      try (destruct (rp || tm)); cbn [fst snd l_timer]; eexists _, _, _, _; (split; [reflexivity|]); auto 10.
+  - destruct Hb as [-> | ->]; cbn [lstep l_backend]; try destruct bk; cbn [fst snd l_timer]; eexists _, _, _, _; (split; [reflexivity|]); auto 10.
+  - destruct Hc as [-> | [-> Ht]]; cbn [lstep fst snd l_timer]; eexists _, _, _, _; (split; [reflexivity|]); auto 10.
+  - destruct Hd as [-> | ->]; cbn [lstep fst snd l_timer]; eexists _, _, _, _; (split; [reflexivity|]); auto 10.
+  - destruct i; cbn; eexists _, _, _, _; (split; [reflexivity|]); auto 10.
+Qed.
+
+(* whatever the closer, the report helper, the timer and the backend have done so far — in particular if the backend NEVER
+   answers — letting the timer fire and the closer take three more steps ends the clean-up: Close returns *)
+Theorem guarded_final_report_close_completes pre :
+  let s := run _ _ (lstep true) (linit, [LSpawn; LReport; LTimer; LBackend]) pre in
+  nth_error (snd (run _ _ (lstep true) s [2; 0; 0; 0])) 0 = Some LDone.
+Proof.
+  intros s.
+  assert (HI : LInvG s).
+  { unfold s. apply inv_all_schedules; [intros s0 i; apply linvg_step|].
+    exists LSpawn, LReport, LTimer, LBackend. unfold l_closer. cbn. auto 10. }
+  destruct s as [sh ls]. destruct HI as (a & b & c & d & Hls & Ha & Hb & Hc & Hd). cbn [fst snd] in *. subst ls.
+  destruct sh as [bk rp tm]. unfold l_closer in Ha. cbn [l_timer] in Hc.
+  destruct Ha as [-> | [-> | [-> | ->]]]; destruct Hc as [-> | [-> Ht]]; try subst tm; destruct rp; vm_compute; reflexivity.
+Qed.
+
+(* the synchronous final report: the backend never answers, the timer fires in vain, no schedule moves any thread again
+   and the closer is still waiting *)
+Lemma unguarded_final_report_refuted :
+  exists pre,
+    let s := run _ _ (lstep false) (linit, [LSpawn; LReport; LTimer]) pre in
+    snd s = [LWait; LReport; LTimerFired] /\ (forall sched, run _ _ (lstep false) s sched = s).
+Proof.
+  exists [0; 2]. split; [vm_compute; reflexivity|].
+  apply run_fixpoint. intros [|[|[|i]]]; try (vm_compute; reflexivity). destruct i; vm_compute; reflexivity.
+Qed.
